@@ -14,6 +14,8 @@ use poulpy_verif_harness::with_be;
 
 #[path = "../c07_ntt.rs"]
 mod c07_ntt;
+#[path = "../c07_net.rs"]
+mod c07_net;
 
 fn garbage(buf: &mut [u8], rng: &mut Rng) {
     for c in buf.chunks_mut(8) {
@@ -56,6 +58,7 @@ fn op(r: &Rec) -> Vec<Vec<i128>> {
     let (bcols, bsize, bcol) = (u(8), u(9), u(10));
     let ex = |i: usize| p[11 + i];
     let code = r.code;
+    if code >= 7200 { return c07_net::op(r); }
     if code >= 7100 { return c07_ntt::op(r); }
     with_be!(be, BE, {
         let m = module::<BE>(n);
@@ -229,6 +232,7 @@ pub fn generate(tier: &str, seed: u64) -> Vec<Rec> {
         }
     }
     c07_ntt::generate(tier, &mut rng, &mut out);
+    c07_net::generate(tier, &mut rng, &mut out);
     out
 }
 
